@@ -101,27 +101,31 @@ func runScene(enc *json.Encoder, c Case, seed int64) error {
 		if bst != "OK" {
 			continue
 		}
+		line := batchLine{K: "hit", Case: c.Id, Fail: []int{}, Nan: []int{}}
 		batch := make([]hitEntry, 0, len(c.Rays))
-		for _, q := range c.Rays {
+		for qi, q := range c.Rays {
 			td := float64(q[8])
 			t0, t1 := float64(q[6])/td, float64(q[7])/td
 			ray := rendering.NewTemporalRay(v3(q[0:3]), v3(q[3:6]), 0)
-			e := hitEntry{Q: q, Te: make([]int, n)}
+			bad := false
+			e := hitEntry{Te: make([]int, n)}
 			for i, it := range items {
-				r := hitOf(it, &ray, t0, t1, &e.Nan)
+				r := hitOf(it, &ray, t0, t1, &bad)
 				e.Te[i] = None
 				if r.St != "OK" {
-					e.Nan = true
+					bad = true
 				} else if r.H {
 					e.Te[i] = r.T
 				}
 			}
-			e.List = hitOf(list, &ray, t0, t1, &e.Nan)
-			e.Bvh = hitOf(bvh, &ray, t0, t1, &e.Nan)
-			e.Oct = hitOf(oct, &ray, t0, t1, &e.Nan)
+			e.List = hitOf(list, &ray, t0, t1, &bad)
+			e.Bvh = hitOf(bvh, &ray, t0, t1, &bad)
+			e.Oct = hitOf(oct, &ray, t0, t1, &bad)
+			line.note(qi, "OK", bad)
 			batch = append(batch, e)
 		}
-		if err := enc.Encode(batchLine{K: "hit", Case: c.Id, B: batch}); err != nil {
+		line.B = batch
+		if err := enc.Encode(line); err != nil {
 			return err
 		}
 	}
